@@ -6,6 +6,7 @@ Tie: real crypto.  Every frame of honest sessions is corrupted (each byte flippe
 marker/protocol/name/handshake deviations, framing mismatches) under three chunkings; deliveries must be a byte-exact prefix
 of what the device sent and the session must end closed with the specific class; the extracted model must agree."""
 import asyncio
+import binascii
 import base64
 import json
 import random
@@ -91,7 +92,7 @@ def run(rep, tier, seed):
         "honest 7-frame sessions (hello, handshake, 5 messages) with one corruption: every byte flipped with 0x01 and 0x80 (thorough; sampled positions in quick), "
         "every truncation length, each frame duplicated / dropped / swapped with its neighbour; hello and handshake deviations (empty, other protocol, other name, "
         "undecodable name, error frames, empty handshake); a device with a different key; both framing mismatches; x {one chunk, per-frame chunks, 1-byte chunks}; "
-        "key strings (valid, wrong length, bad padding, non-alphabet, empty); non-trivial = the stream deviates; distinct by (corruption, chunking)")
+        "key strings (valid, wrong length, bad padding, non-alphabet, empty) at the helper and through APIClient (also whitespace-only); encrypted sessions whose device name only the HelloResponse reveals; non-trivial = the stream deviates; distinct by (corruption, chunking)")
     proofs_ok = rep.proofs(VFILE)
     ok, log = common.build_driver()
     if not ok:
@@ -259,6 +260,45 @@ def run(rep, tier, seed):
         if not valid and (not isinstance(err, InvalidEncryptionKeyAPIError) or wrote):
             rep.violation("C04/key-gate", f"key {k[:20]!r} is not base64 for 32 bytes: raised {type(err).__name__}, wrote {wrote} time(s) (expected InvalidEncryptionKeyAPIError before anything is sent)", replay)
 
+    # ---- the same gate through the public client: a configured key reaches the helper as configured (no normalisation
+    # may turn a malformed key into "no key"), and a device name that only the HelloResponse can reveal is still checked
+    from checks import c06 as _c06
+    from vlib import conntrace, simnet
+    ckeys = ["", " ", "\n", " \r\n", "\t \t", "=", "AAAA", noisesim.b64(bytes(31)), noisesim.b64(bytes(33)), noisesim.b64(bytes(32))[:-1],
+             "!" * 44, noisesim.b64(bytes(range(32))), " " + noisesim.b64(bytes(range(32))) + "\n"]
+    for k in ckeys:
+        res = simnet.run(lambda loop: client_key_case(loop, k))
+        try:
+            valid = len(binascii.a2b_base64(k)) == 32
+        except Exception:
+            valid = False
+        rep.case(("client-key", k), not valid, sample={"client_key": k, "outcome": res})
+        rep.bump("client-key:" + ("valid" if valid else "none" if k == "" else "invalid"))
+        replay = {"kind": "impl-case", "variant": "client-key", "key": k}
+        if k == "":
+            continue          # no key configured: a plaintext session is what was asked for
+        if valid:
+            if res["error"] is not None or not res["first_write"].startswith("010000"):
+                rep.violation("C04/key-rejected", f"APIClient(noise_psk={k[:12]!r}...): a valid key did not start a Noise session ({res})", replay)
+        elif res["error"] != "L.InvalidKey" or res["writes"]:
+            rep.violation("C04/key-gate", f"APIClient(noise_psk={k!r}): not base64 for 32 bytes, yet the attempt ended with {res['error']} after "
+                          f"{res['writes']} write(s) (first {res['first_write'][:16]}); expected InvalidEncryptionKeyAPIError before anything is sent", replay)
+    for sn, nk in (("-", "o"), ("-", "p"), ("-", "q"), ("-", "c"), ("o", "x"), ("-", "x"), ("x", "x")):
+        case = dict(server_name=sn, name=nk, expect=1, login=0, invalid_password=0, major=1, password=None)
+        out, state, stops = simnet.run(lambda loop: _c06.noise_case(loop, case))
+        exp = _c06.noise_oracle(case)
+        rep.case(("conn-name", sn, nk), exp[0] != "ok", sample={"noise_case": case, "outcome": out[:2]})
+        rep.bump("conn-name:" + exp[0])
+        replay = {"kind": "impl-case", "variant": "conn-name", "case": case}
+        if exp[0] == "err":
+            if out[0] == "ok" or state != "CLOSED":
+                rep.violation("C04/name-accepted", f"encrypted session, expected name 'dev', server hello name {_c06.NAMES[sn]!r}, HelloResponse name {_c06.NAMES[nk]!r}: "
+                              f"finish_connection {out[:2]}, state {state} (must end closed with BadNameAPIError)", replay)
+            elif out[1] != exp[1] or out[2] != exp[2]:
+                rep.violation("C04/wrong-class", f"encrypted session with a mismatching device name: raised {out[1]}({out[2]!r}), expected {exp[1]}({exp[2]!r})", replay)
+        elif out[0] != "ok":
+            rep.violation("C04/name-rejected", f"encrypted session with the expected device name was refused: {out}", replay)
+
     mout = common.run_driver(lines)
     def comparable(m):
         # a corrupted length field makes the helper read ciphertext bytes as headers: their values are not represented in
@@ -274,6 +314,33 @@ def run(rep, tier, seed):
                                 "first_disagreements": disagreements[:3]}))
     if not proofs_ok and not rep.violations:
         rep.proof_broken(rep.broken[0], rep.broken[1])
+
+
+async def client_key_case(loop, key):
+    """APIClient configured with `key`, connecting over SimNet: how the attempt ends and what reached the transport."""
+    from aioesphomeapi.client import APIClient
+    from vlib import conntrace, simnet
+    net = simnet.Net(loop)
+    with net.patched():
+        cli = APIClient("10.0.0.1", 6053, None, noise_psk=key)
+        err = None
+        try:
+            await cli.start_connection()
+            task = asyncio.ensure_future(cli.finish_connection(login=False))
+            await simnet.drain(loop)
+            if task.done() and task.exception() is not None:
+                err = conntrace.exc_name(task.exception())
+            elif not task.done():
+                task.cancel()
+        except Exception as e:  # noqa: BLE001
+            err = conntrace.exc_name(e)
+        writes = [d for tr in net.transports for _, d in tr.writes]
+        try:
+            await cli.disconnect(force=True)
+        except Exception:  # noqa: BLE001
+            pass
+        await simnet.drain(loop)
+    return {"error": err, "writes": len(writes), "first_write": writes[0].hex() if writes else ""}
 
 
 def apply_variant(st, label):
